@@ -446,7 +446,7 @@ pub const CASE_VARIANTS: &[&str] = &["Foo", "foo", "FOO", "fOO", "fooBar", "FooB
 
 pub const SEPARATORS: &[&str] = &["a-b", "a.b", "a_b", "aB", "AB", "A_B", "a--b", "a-.b", "a_-b", "ab", "Ab", "a-b-c", "a.b.c", "a_b_c", "aBC", "ABc"];
 
-pub const PREFIXED: &[&str] = &["p:x", "q:x", "p:a", "ns:item", "p:type", "xml:lang", "xml:space", "p:a-b", "P:X", "p:String"];
+pub const PREFIXED: &[&str] = &["K:u", "ȺȺ:x", "ΩΩ:a", "İ:a", "ẞ:b", "Å:c", "p:x", "q:x", "p:a", "ns:item", "p:type", "xml:lang", "xml:space", "p:a-b", "P:X", "p:String"];
 
 pub const XMLNS: &[&str] = &["xmlns", "xmlns:p", "xmlns:q", "xmlns:xsi"];
 
@@ -454,9 +454,10 @@ pub const CONCAT: &[&str] = &["Total", "Price", "TotalPrice", "total", "price", 
 
 pub const SUFFIXY: &[&str] = &["text", "text_content", "text_content_1", "x", "x_attr", "x_1", "x_2", "x_attr_1", "a_1", "a1", "a-1", "b2", "Text", "TEXT", "text-content"];
 
-pub const UNDERSCORE: &[&str] = &["_a", "a_", "_x_", "__a", "a__b"];
+pub const UNDERSCORE: &[&str] = &["_a", "a_", "_x_", "__a", "a__b", "_type", "_Type", "_ref", "__loop", "_self", "_id", "type_"];
 
 pub const NONASCII: &[&str] = &[
+    "ŉ", "ǰ", "𐐀𐐩", "𐐨", "𝒳", "e\u{301}", "E\u{301}cole", "Åb", "ǅ", "ǲ", "ΐ", "ﬃ", "ẞ", "ǆx", "Ω", "ω",
     "Имя", "имя", "ИМЯ", "Коммерческая", "Ελληνικά", "ελληνικά", "straße", "Straße", "İstanbul", "ǆ", "ǅ", "日本", "名前", "データ", "élan", "Élan", "naïve", "ÀB", "àb", "ß", "ﬁ",
 ];
 
@@ -469,11 +470,28 @@ pub enum Pool {
     NoNamespace,
     /// names whose identifiers collide (separator / case variants, suffix look-alikes)
     Collide,
+    /// large vocabulary: numbered names, very long names, a few from the other families
+    Synthetic,
 }
+
+const SYNTHETIC: &[&str] = &[
+    "n0", "n1", "n2", "n3", "n4", "n5", "n6", "n7", "n8", "n9", "n10", "n11", "n12", "n13", "n14", "n15", "n16", "n17", "n18", "n19",
+    "n20", "n21", "n22", "n23", "n24", "n25", "n26", "n27", "n28", "n29", "n30", "n31", "n32", "n33", "n34", "n35", "n36", "n37", "n38", "n39",
+    "n40", "n41", "n42", "n43", "n44", "n45", "n46", "n47", "n48", "n49", "n50", "n51", "n52", "n53", "n54", "n55", "n56", "n57", "n58", "n59",
+    "n60", "n61", "n62", "n63", "n64", "n65", "n66", "n67", "n68", "n69", "n255", "n256", "n257", "n65535", "n65536",
+    "aVeryLongElementNameThatGoesOnAndOnAndOnAndOnAndOnAndOnAndOnAndOnAndOnAndOnAndOnAndOnAndOnAndOnAndOnAndOnAndOnAndOnAndOnAndOn",
+    "another_very_long_name_with_underscores_that_is_longer_than_sixty_four_bytes_for_sure_and_then_some_more_to_pass_128_bytes_in_total_length_ok",
+    "x-y-z-x-y-z-x-y-z-x-y-z-x-y-z-x-y-z-x-y-z-x-y-z-x-y-z-x-y-z-x-y-z-x-y-z-x-y-z-x-y-z-x-y-z-x-y-z-x-y-z-x-y-z-x-y-z-x-y-z-x-y-z-x-y-z-x-y-z-x-y-z-x-y-z-x-y-z-x-y-z-x-y-z-x-y-z-x-y-z-x-y-z-x-y-z-x-y-z-x-y-z-x-y-z-x-y-z-x-y-z-x-y-z-x-y-z",
+    "ééééééééééééééééééééééééééééééééé", "p:n1", "q:n2", "type", "Self", "a-b", "a_b",
+];
 
 pub fn pool_names(pool: Pool, for_attrs: bool) -> Vec<&'static str> {
     let mut v: Vec<&'static str> = Vec::new();
     match pool {
+        Pool::Synthetic => {
+            v.extend_from_slice(SYNTHETIC);
+            v.extend_from_slice(PLAIN);
+        }
         Pool::Plain => v.extend_from_slice(PLAIN),
         Pool::Collide => {
             v.extend_from_slice(SEPARATORS);
@@ -560,6 +578,8 @@ pub struct Profile {
     pub calm_text: bool,
     /// unique value tokens (C02/C13)
     pub unique_values: bool,
+    /// upper bound on the number of elements of one document
+    pub max_elems: usize,
 }
 
 impl Profile {
@@ -580,6 +600,7 @@ impl Profile {
             attrs_disjoint_children: false,
             calm_text: false,
             unique_values: false,
+            max_elems: 300,
         }
     }
     pub fn tiny() -> Profile {
@@ -591,6 +612,53 @@ impl Profile {
             n_attr_names: (0, 2),
             n_docs: (1, 3),
             ..Profile::general()
+        }
+    }
+    /// many siblings / attributes per element
+    pub fn wide() -> Profile {
+        Profile {
+            pool: Pool::Synthetic,
+            max_depth: 3,
+            max_children: 48,
+            n_elem_names: (8, 40),
+            n_attr_names: (6, 40),
+            n_docs: (1, 3),
+            ..Profile::general()
+        }
+    }
+    /// deep nesting with few names (the same name at many depths and under itself)
+    pub fn deep() -> Profile {
+        Profile {
+            pool: Pool::Mixed,
+            max_depth: 28,
+            max_children: 2,
+            max_elems: 90,
+            n_elem_names: (1, 3),
+            n_attr_names: (0, 2),
+            n_docs: (1, 3),
+            ..Profile::general()
+        }
+    }
+    /// long lists: one parent occurring hundreds of times with varying child subsets
+    pub fn long_list() -> Profile {
+        Profile {
+            pool: Pool::Plain,
+            max_depth: 3,
+            max_children: 600,
+            max_elems: 900,
+            n_elem_names: (1, 3),
+            n_attr_names: (0, 3),
+            n_docs: (1, 2),
+            ..Profile::general()
+        }
+    }
+    /// many documents
+    pub fn many_docs() -> Profile {
+        Profile {
+            n_docs: (7, 16),
+            max_depth: 3,
+            max_children: 4,
+            ..Profile::tiny()
         }
     }
     pub fn adversarial() -> Profile {
@@ -612,6 +680,7 @@ pub struct HistoryGen<'a> {
     pub attr_names: Vec<String>,
     pub value_counter: usize,
     pub value_tag: String,
+    pub elems_left: usize,
 }
 
 const TEXTS: &[&str] = &["t", "hello", "x y", " padded ", "1", "a&b", "<tag>", "ünï", "0.5", "true", "]]", "\"q\"", "'"];
@@ -630,6 +699,7 @@ impl<'a> HistoryGen<'a> {
             attr_names,
             value_counter: 0,
             value_tag: value_tag.to_string(),
+            elems_left: p.max_elems,
         }
     }
 
@@ -713,18 +783,28 @@ impl<'a> HistoryGen<'a> {
             }
         }
         // children
-        let budget = if depth >= self.p.max_depth {
+        self.elems_left = self.elems_left.saturating_sub(1);
+        let budget = if depth >= self.p.max_depth || self.elems_left == 0 {
             0
         } else {
             let m = self.p.max_children;
-            match self.r.below(8) {
-                0 | 1 => 0,
-                2 | 3 => self.r.range(0, 1.min(m)),
-                4 | 5 => self.r.range(0, 2.min(m)),
-                _ => self.r.range(0, m),
+            if self.p.max_depth > 12 {
+                // deep profile: keep going down most of the time
+                if self.r.chance(1, 12) { 0 } else { self.r.range(1, m) }
+            } else if m > 100 {
+                // long lists: only the top levels are long
+                if depth == 1 { self.r.range(m / 3, m) } else { self.r.range(0, 3) }
+            } else {
+                match self.r.below(8) {
+                    0 | 1 => 0,
+                    2 | 3 => self.r.range(0, 1.min(m)),
+                    4 | 5 => self.r.range(0, 2.min(m)),
+                    _ => self.r.range(0, m),
+                }
             }
         };
         let mut child_names: Vec<String> = Vec::new();
+        let budget = budget.min(self.elems_left);
         for _ in 0..budget {
             let n = self.r.pick(&self.elem_names).clone();
             if self.p.attrs_disjoint_children && e.attrs.iter().any(|(k, _)| *k == n) {
@@ -806,6 +886,7 @@ impl<'a> HistoryGen<'a> {
     }
 
     pub fn doc(&mut self, root_name: &str) -> Doc {
+        self.elems_left = self.p.max_elems;
         let root = self.elem(root_name, 1);
         let mut d = Doc::plain(root);
         if self.r.chance(1, 4) {
